@@ -53,12 +53,17 @@ def run(c):
 
     # ---- P: regenerate and re-prove
     gen_ok = False
+    inst_ok = False
+    table_json = ""   # the table of prefix classes the translator read off the source (pattern string -> unicode predicate)
     if c.go2coq("textmatch", "Gen_Textmatch.v"):
+        m = pyre.search(r"^\(\* PREFIX-TABLE-JSON: (\[.*\]) \*\)$", open(os.path.join(c.gen, "Gen_Textmatch.v")).read(), pyre.M)
+        table_json = m.group(1) if m else ""
+        c.obligation("go2coq:textmatch: the table of prefix classes is listed", bool(m), "no PREFIX-TABLE-JSON line")
         if c.coq_compile(["Gen_Textmatch.v"]):
-            c.install_tmpl("C11/Inst_Textmatch.v", "C11/C11.v")
+            c.install_tmpl("C11/Inst_Textmatch.v", "C11/C11.v", "C11/Hyp_Instance.v")
             inst_ok = c.coq_compile(["Inst_Textmatch.v", "C11.v"])
             gen_ok = True  # the generated definitions exist and can be executed even if a proof about them broke
-            del inst_ok
+    c.coverage["prefix_class_table"] = [[b64(e[0]).decode("utf-8", "replace"), e[1]] for e in json.loads(table_json)] if table_json else None
 
     c.log("proof obligations compiled")
     hb = c.build_harness("c11")
@@ -69,7 +74,10 @@ def run(c):
     def observe(nrand, nengine, seed):
         tmp = os.path.join(c.work, "tmp")
         os.makedirs(tmp, exist_ok=True)
-        rc, out = c.run_harness(hb, ["-seed", str(seed), "-rand", str(nrand), "-engine", str(nengine), "-tmp", tmp], timeout=900)
+        args = ["-seed", str(seed), "-rand", str(nrand), "-engine", str(nengine), "-tmp", tmp, "-table", table_json]
+        if thorough:
+            args.append("-allclasses")
+        rc, out = c.run_harness(hb, args, timeout=1800)
         obs = []
         for line in out.splitlines():
             line = line.strip()
@@ -87,23 +95,47 @@ def run(c):
         pats = [o for o in obs if o["k"] == "pat"]
         eng = [o for o in obs if o["k"] == "engine"]
         rej = [o for o in obs if o["k"] == "engine-reject"]
-        uni = [o for o in obs if o["k"] == "unicode"]
+        runs = [o for o in obs if o["k"] == "engine-run"]
+        sweeps = [o for o in obs if o["k"] == "sweep"]
+        tab = next((o for o in obs if o["k"] == "table"), None)
+        classes = next((o["defs"] for o in obs if o["k"] == "classes"), {}) or {}
 
-        # ---- validation of the Section hypotheses about package unicode / syntax.Parse
-        lu = ll = None
-        if not uni:
-            c.obligation("hyp:unicode-observed", False, "harness printed no unicode record")
+        # ---- the hypothesis of the theorems about the table of prefix classes, entry by entry, for every rune; the observed
+        # range tables / parses go into Obs_Unicode.v and Hyp_Instance.v turns the comparison into the hypothesis (in Coq)
+        obs_ok = False
+        if not tab:
+            c.obligation("hyp:table-observed", False, "harness printed no table record")
         else:
-            u = uni[0]
-            ok = not u.get("upper_bad") and not u.get("lower_bad") and not u["error_upper"] and not u["error_lower"]
-            mu = pyre.fullmatch(r"\(Concat \[BeginText;\(CharClass (\[.*\])\)\]\)", u["upper_ast"])
-            ml = pyre.fullmatch(r"\(Concat \[BeginText;\(CharClass (\[.*\])\)\]\)", u["lower_ast"])
-            ok = ok and bool(mu) and bool(ml)
-            c.obligation("hyp:parse_upper/parse_lower/pred_error hold of package unicode (%d runes)" % u.get("runes", 0), ok,
-                         json.dumps({k: v for k, v in u.items() if not k.endswith("_ast")}))
-            c.count(u.get("runes", 0))
-            if mu and ml:
-                lu, ll = mu.group(1), ml.group(1)
+            for e in tab["entries"] or []:
+                ok = e["known"] and not e.get("parse_err") and e["shape_ok"] and e["nbad"] == 0 and not e["pred_error"]
+                c.obligation("hyp:table entry %r: syntax.Parse gives ^ + one class and unicode.%s decides that class, for every rune (%d) "
+                             "and rejects U+FFFD" % (b64(e["pat"]).decode("utf-8", "replace"), e["pred"], tab["runes"]), ok,
+                             json.dumps({k: v for k, v in e.items() if k != "ast"}))
+                c.count(tab["runes"])
+            if tag == "main":
+                names = ["IsUpper", "IsLower", "IsTitle", "IsLetter", "IsDigit", "IsNumber", "IsSpace", "IsPunct", "IsSymbol", "IsMark",
+                         "IsControl", "IsGraphic", "IsPrint"]
+                src = ["(* written by checks/C11.py from the harness's observations of this run *)",
+                       "From Coq Require Import List ZArith.", "From RG.Base Require Import Outcome GoSlice.", "From RG.Regex Require Import Utf8 Regex FastPath.",
+                       "Import ListNotations. Local Open Scope Z_scope.",
+                       "Definition obs_pred_rg (p : pred_id) : list (rune * rune) :=\n  match p with"]
+                for n in names:
+                    src.append("  | Pred%s => %s" % (n, tab["preds"].get(n, "[]")))
+                src.append("  end.")
+                src.append("Definition obs_parses : list (bytes * regex) := [%s]." % ";\n  ".join(
+                    "(%s, %s)" % (coq_bytes(b64(e["pat"])), e["ast"]) for e in (tab["entries"] or []) if e.get("ast")))
+                with open(os.path.join(c.gen, "Obs_Unicode.v"), "w") as f:
+                    f.write("\n".join(src) + "\n")
+                obs_ok = c.coq_compile(["Obs_Unicode.v"])
+                if obs_ok and gen_ok and inst_ok:
+                    c.coq_compile(["Hyp_Instance.v"])
+            else:
+                obs_ok = os.path.exists(os.path.join(c.gen, "Obs_Unicode.vo"))
+        cls_mod = "Obs_Classes_%s" % tag
+        with open(os.path.join(c.gen, cls_mod + ".v"), "w") as f:
+            f.write("From Coq Require Import List ZArith.\nImport ListNotations. Local Open Scope Z_scope.\n" +
+                    "\n".join("Definition %s : list (Z * Z) := %s." % (k, v) for k, v in sorted(classes.items())) + "\n")
+        cls_ok = c.coq_compile([cls_mod + ".v"])
 
         # ---- O: the property's oracle
         kinds = {}
@@ -145,8 +177,25 @@ def run(c):
                 c.nontriv(("engine", o["pred"], o["neg"], o["pat"], o["input"]))
             if o["got"] != o["want"]:
                 c.fail("oracle", "%s%s.Matches disagrees with regexp on the same text" % ("!" if o["neg"] else "", o["pred"]),
-                       input={"predicate": o["pred"], "negated": o["neg"], "pattern": repr(b64(o["pat"])), "text": repr(b64(o["input"]))},
+                       input={"predicate": o["pred"], "negated": o["neg"], "pattern": repr(b64(o["pat"])), "text": repr(b64(o["input"])),
+                              "run": o.get("run"), "runner_state": {"shared": "one RunnerState reused for the whole history of runs",
+                                                                    "nil": "RunContext.State == nil"}.get(o.get("mode"), o.get("mode")),
+                              "earlier_runs_with_this_state": o.get("prev", "")},
                        observed={"reported": o["got"]}, expected={"reported": o["want"]})
+        for o in runs:
+            # a later run over a version whose sites were listed before: mismatches (if any) are among `eng`
+            c.count(o["sites"])
+            c.nontriv(("engine-run", o["mode"], o["run"], o["version"]))
+        c.coverage["engine_runs"] = c.coverage.get("engine_runs", 0) + len(runs) + len(set((o.get("mode"), o.get("run")) for o in eng))
+        for o in sweeps:
+            c.count(o["runes"])
+            c.nontriv(("sweep", o["pat"]))
+            for k, inp in enumerate(o.get("bad") or []):
+                c.fail("oracle", "textmatch answers differently from regexp compiled from the same pattern (sweep over every rune as the "
+                       "first character; %d inputs differ)" % o["nbad"],
+                       input={"pattern": repr(b64(o["pat"])), "input": repr(b64(inp)), "matcher": o.get("kind")},
+                       observed={"textmatch": o["bad_tm"][k]}, expected={"regexp.Match": not o["bad_tm"][k]})
+        c.coverage["all_rune_sweeps"] = c.coverage.get("all_rune_sweeps", 0) + len(sweeps)
         for o in rej:
             c.count()
             if not o["got"]:
@@ -158,7 +207,7 @@ def run(c):
         c.coverage["oracle_vs_impl_cases"] = c.coverage.get("oracle_vs_impl_cases", 0) + sum(len(o.get("tm") or "") for o in pats) + len(eng)
 
         # ---- K: run the regenerated selection / matchers / capture walk inside Coq on the same cases
-        if lu is None:
+        if not (obs_ok and cls_ok):
             return
         ctor = {"contains": "MContains", "prefix": "MPrefix", "suffix": "MSuffix", "eq": "MEq"}
         folds = next((o["table"] for o in obs if o["k"] == "folds"), []) or []
@@ -183,12 +232,18 @@ def run(c):
                 return "(Some (%s %s))" % (ctor[k], coq_bytes(b64(o.get("lit_b"))))
             if k == "pred":
                 name = b64(o.get("lit_s")).decode()
-                return "(Some (MPrefixPred %s))" % {"IsUpper": "PredIsUpper", "IsLower": "PredIsLower"}.get(name, "PredIsLower")
+                if name in pred_names:
+                    return "(Some (MPrefixPred Pred%s))" % name
             return None
 
+        pred_names = set(tab["preds"].keys())
+        for o in pats:
+            if o.get("ast") and not o["err"] and expected(o) is None:
+                c.fail("corr", "textmatch chose a matcher the model has no counterpart for (a rune predicate that is not one of package unicode's?)",
+                       input={"pattern": repr(b64(o["pat"]))}, observed={"kind": o.get("kind"), "holds": repr(b64(o.get("lit_s")))})
         sel = [o for o in pats if o.get("ast") and not o["err"] and expected(o) is not None]
         NSH = 14
-        sel_fn = "gen_compileOptimized" if gen_ok else "(fun s re => Ok (spec_select s re))"
+        sel_fn = "gen_compileOptimized" if gen_ok else "(fun s re => Ok (spec_select [(pat_upper, PredIsUpper); (pat_lower, PredIsLower)] s re))"
         mb_fn = "gen_match_bytes pred" if gen_ok else "run_matcher pred"
         ms_fn = "gen_match_string pred" if gen_ok else "run_matcher pred"
         pre = "\n".join([
@@ -196,10 +251,9 @@ def run(c):
             "From RG.Base Require Import Outcome GoSlice.",
             "From RG.Regex Require Import Utf8 Regex FastPath GoOps Capture Matcher.",
             "From RGW Require Import Gen_Textmatch." if gen_ok else "",
+            "From RGW Require Import Obs_Unicode %s." % cls_mod,
             "Import ListNotations. Local Open Scope Z_scope.",
-            "Definition lu : list (Z * Z) := %s." % lu,
-            "Definition ll : list (Z * Z) := %s." % ll,
-            "Definition pred (p : pred_id) (c : Z) : bool := match p with PredIsUpper => in_ranges lu c | PredIsLower => in_ranges ll c end.",
+            "Definition pred (p : pred_id) (c : Z) : bool := in_ranges (obs_pred_rg p) c.",
             "Definition sel_ok (s : bytes) (re : regex) (e : option matcher) : bool := "
             "match %s s re with Ok r => opt_matcher_eqb r e | Panic _ => false end." % sel_fn,
             "Definition folds : list (Z * list Z) := [%s]." % ";".join("(%d, [%s])" % (row[0], ";".join(str(x) for x in row[1:])) for row in folds),
@@ -210,7 +264,7 @@ def run(c):
         def shard(items):
             src = [pre]
             src.append("Definition scases : list (Z * bytes * regex * option matcher * bool) := [")
-            src.append(";\n".join("(%d, %s, %s, %s, %s)" % (o["i"], coq_bytes(b64(o["pat"])), o["ast"].replace(lu, "lu").replace(ll, "ll"), expected(o),
+            src.append(";\n".join("(%d, %s, %s, %s, %s)" % (o["i"], coq_bytes(b64(o["pat"])), o["ast"], expected(o),
                                                             "true" if o["hascap"] else "false") for o in items))
             src.append("].")
             src.append("Definition bad_sel := map (fun c => match c with (i, s, re, e, h) => i end) "
@@ -238,7 +292,7 @@ def run(c):
             picks = {o["i"]: pick(o) for o in wm}
             src.append("Definition vcases : list (Z * regex * list bytes * list bool) := [")
             src.append(";\n".join("(%d, %s, [%s], [%s])" % (
-                o["i"], o["ast"].replace(lu, "lu").replace(ll, "ll"), ";".join(coq_bytes(b64(o["inputs"][k])) for k in picks[o["i"]]),
+                o["i"], o["ast"], ";".join(coq_bytes(b64(o["inputs"][k])) for k in picks[o["i"]]),
                 ";".join("true" if o["re"][k] == "1" else "false" for k in picks[o["i"]])) for o in wm))
             src.append("].")
             src.append("Definition bad_search := map (fun c => match c with (i, re, ins, bs) => i end) "
